@@ -189,7 +189,8 @@ def canon_spec(index, seed):
            {"op": "compile", "c": 0, "of": 2, "uri": "c.feature"},
            {"op": "compile", "c": 0, "of": 0, "uri": "late.feature"}]
     return {"scenario": "canon", "prop": "C11", "labels": [name, ["stream-wiring", "readme-wiring", "default-wiring", "attribute-wiring"][wiring]], "oracles": ORACLES, "clause4": True,
-            "cfg": {"flavour": "inc", "salt": 0}, "gens": 2, "fs": {}, "tasks": [{"parsers": parsers, "matchers": [], "compilers": compilers, "ops": ops}]}
+            "cfg": {"flavour": "inc", "salt": 0, "genclass": "journal" if (index // 4) % 2 else "plain"}, "gens": 2, "fs": {},
+            "tasks": [{"parsers": parsers, "matchers": [], "compilers": compilers, "ops": ops}]}
 
 
 def _id_task(rng, shared_gens, files, tname, nops, small):
@@ -238,7 +239,7 @@ def gen_hist(rng):
     task, labels = _id_task(rng, list(range(ngens)), files, "t0", rng.randint(2, 12), False)
     return {"scenario": "hist", "prop": "C11", "labels": labels, "oracles": ORACLES,
             "cfg": {"flavour": rng.choice(["inc", "inc", "opaque"]), "salt": rng.getrandbits(32), "chunk_max": rng.choice([0, 0, 3]), "fs_seed": rng.getrandbits(30),
-                    "drop": rng.random() < 0.5},
+                    "drop": rng.random() < 0.5, "genclass": rng.choice(["plain", "plain", "journal"])},
             "gens": ngens, "fs": {"files": files}, "tasks": [task]}
 
 
@@ -253,7 +254,7 @@ def gen_inter(rng):
         labels.append(lb)
     spec = {"scenario": "inter", "prop": "C11", "labels": labels, "oracles": ORACLES, "force_kernel": True,
             "cfg": {"flavour": rng.choice(["inc", "inc", "opaque"]), "salt": rng.getrandbits(32), "chunk_max": 0, "fs_seed": 1,
-                    "policy": POLICIES[rng.randrange(len(POLICIES))], "sched_seed": rng.getrandbits(32)},
+                    "policy": POLICIES[rng.randrange(len(POLICIES))], "sched_seed": rng.getrandbits(32), "genclass": rng.choice(["plain", "plain", "journal"])},
             "gens": ngens, "fs": {"files": files}, "tasks": tasks}
     if rng.random() < 0.1:
         victim = rng.randrange(ntasks)
